@@ -22,6 +22,8 @@ SPEC = dict(
                  I('msg_1o_td_toakafa', 'h_msg', shape(0, 1, 1), 1, 'one owner, one trusted key'),
                  I('msg_2o_t_d', 'h_msg', shape(1, 1, 0, 0, 1), 0, ''),
                  I('msg_2o_td_td_toakafa', 'h_msg', shape(1, 1, 1, 1, 1, npre=0), 1, ''),
+                 I('manual_c_ad', 'h_manual', 3 | (2 << 8), 0, ''),
+                 I('manual_o_ad_toakafa', 'h_manual', 7 | (2 << 8), 1, ''),
              ]),
     ],
     bounds=[], assumptions=[], outside=[],
